@@ -328,6 +328,26 @@ def rule_wal_open_floor(cx):
                  "number the next recovery skips" % owner)
 
 
+def rule_replay_window(cx):
+    """Every replay pass covers the whole unflushed log: the memtables of a pass that ended in a corruption error are
+    dropped, so the pass after the repair is the only one whose result is used -- it must start at the same segment
+    (the manifest's log_number handed in as `min_wal_number`), not at the repaired one."""
+    f = cx.f
+    b = f.body("Core::replay_wal_with_repair")
+    rs = sites(cx, b, ["wal::recovery::replay_wal", "replay_wal"], minimum=2)
+    pm = [i for i in range(1, b.argc + 1) if b.local_name(i) == "min_wal_number"]
+    if len(pm) != 1:
+        pm = [i for i in range(1, b.argc + 1) if b.local_ty(i) == "u64"]
+    if len(pm) != 1:
+        raise AnchorMissing("replay_wal_with_repair: cannot identify the min_wal_number parameter")
+    for c in rs:
+        o = origin_of_operand(b, c.args[1])
+        ok = {p[0] for p in o.params} == {pm[0]} and not o.calls and not o.ops and not o.fields
+        cx.check(ok, "replay pass starts at the caller's min_wal_number", "replay-window|%s" % ("retry" if c is not rs[0] else "first"), c.where(),
+                 "a replay pass in replay_wal_with_repair starts at a segment other than the manifest's log_number (%s): the segments in front of "
+                 "it are left out of the recovered state although they are unflushed -> later transactions without earlier ones" % o)
+
+
 def rule_rotation_seals_segment(cx):
     """Recovery repairs a damaged segment and then replays the segments after it; that is prefix-consistent only if a
     non-final segment can never be torn by a crash, i.e. rotation makes the outgoing segment durable (flush + fsync)
@@ -609,6 +629,36 @@ def rule_every_record_crc_checked(cx):
         if fs and fs[-1][2] in ("compression_type", "compression_type_record_read") and fs[-1][3].endswith("Reader"):
             effects.append((i, "reader.%s changed" % fs[-1][2], "%s:%d" % (b.file, line)))
     cx.floor("record effects in Reader::next", len(effects), 2)
+    # zero padding: the one header that is consumed without a checksum.  Discarding the rest of the block is allowed only
+    # after the remaining bytes were verified to be zero (or nothing remains).
+    skips = []
+    for i, j, lhs, rv, line in b.assigns():
+        fs = [p for p in lhs[1:] if isinstance(p, list) and p[0] == "f"]
+        if i in b.live and fs and fs[-1][2] == "buffer_offset" and rv[0] == "use":
+            o = origin_of_operand(b, rv[1])
+            lens = [c for c in o.calls if c.names & {"std::vec::Vec::len"}]
+            if lens and not o.ops and len(o.calls) == len(lens) and all("buffer" in origin_of_operand(b, c.args[0]).field_names() for c in lens):
+                skips.append((i, "%s:%d" % (b.file, line)))
+    cx.floor("`discard the rest of the block` sites in Reader::next", len(skips), 1)
+    zero = [c for c in b.calls if c.bb in b.live and c.primary.split("::")[-1] in ("all", "any") and "Iterator" in c.primary
+            and "buffer" in origin_of_operand(b, c.args[0], through_calls="all").field_names()]
+    ph0 = sites(cx, b, "wal::reader::Reader::parse_header")
+    cut = set()
+    for cm in comparisons(b):
+        lo, ro = origin_of_operand(b, cm.lhs), origin_of_operand(b, cm.rhs)
+        for x, yop in ((lo, cm.rhs), (ro, cm.lhs)):
+            if x.from_call("Reader::buffer_remaining") and const_value(yop) == 0:
+                flip = x is ro
+                for sw, e in cm.switches():
+                    for tgt, lab in e.items():
+                        lab2 = mirror(lab) if flip else lab
+                        if lab2 == frozenset({"eq"}) or lab2 == frozenset({"lt", "eq"}):
+                            cut.add((sw, tgt))   # nothing remains: nothing to verify
+    for bb_, where in skips:
+        r = reach_cut(b, list(b.succ[ph0[0].bb]), avoid={c.bb for c in crc} | {c.bb for c in zero}, cut_edges=cut)
+        cx.check(bb_ not in r, "the rest of a block is discarded only after its bytes were checked to be zero", "padding-skipped-unverified", where,
+                 "Reader::next discards the rest of a block on a type byte of 0 without checking that the skipped bytes are zero: damage that clears one record's type byte "
+                 "makes that record and everything after it in the block vanish silently (a gap, not a prefix), also in absolute-consistency mode")
     for bb_, what, where in effects:
         # since the last header parse, a CRC comparison must lie on every path to the effect
         ph = sites(cx, b, "wal::reader::Reader::parse_header")
